@@ -127,6 +127,28 @@ def cf_exception(ip, f, timeout=None):
     return Sym(e, OBJ)
 
 
+def cf_result(ip, f, timeout=None):
+    """Future.result(): blocks the calling (foreign) thread until the future is done -- the loop thread resolves it
+    meanwhile (E9); then the value, the stored exception, or CancelledError"""
+    st = ip.st
+    h = H(st)
+    if ip.ctx.branch(z3.Not(c_done(h, f.t)), "cf-result-blocks"):
+        # what the loop thread does while this thread waits: this future becomes done (anything else may change too)
+        for fld, sort in (("state", z3.IntSort()), ("result", z3.IntSort()), ("exc", z3.IntSort())):
+            st.put("CFuture", fld, f.t, st.fresh(f"resolved_{fld}", sort))
+        st.assume(c_done(H(st), f.t))
+        ip.ctx.events.append(("waited_for", f.t))
+        h = H(st)
+    if ip.ctx.branch(c_cancelled(h, f.t), "cf-cancelled"):
+        raise PyExc(ExcVal(lib.exc_classes()["CancelledError"], ()))
+    e = st.get("CFuture", "exc", f.t)
+    if ip.ctx.branch(e != 0, "cf-has-exception"):
+        ex = lib.sym_exc(ip, "future_exception")
+        ip.ctx.unit.result_exc = (f.t, ex)
+        raise PyExc(ex)
+    return Sym(st.get("CFuture", "result", f.t), OBJ)
+
+
 def cf_add_done_callback(ip, f, cb):
     ip.st.put("CFuture", "$ncb", f.t, ip.st.get("CFuture", "$ncb", f.t) + 1)
     ip.ctx.events.append(("add_done_callback", f.t, cb))
@@ -144,6 +166,7 @@ lib.MODEL_METHODS["CFuture"] = {
     "set_exception": cf_set_exception,
     "set_running_or_notify_cancel": cf_set_running,
     "exception": cf_exception,
+    "result": cf_result,
     "add_done_callback": cf_add_done_callback,
 }
 
@@ -573,3 +596,237 @@ class TaskDoneRelayUnit(PortalEnv, FunctionUnit):
 
 
 UNITS = [CallFuncUnit, CallbackUnit, StopUnit, CheckRunningUnit, StartTaskSoonUnit, AexitUnit, TaskDoneRelayUnit]
+
+
+# ---- the loop-side entry points for foreign threads (AsyncIOBackend.run_sync_from_thread / run_async_from_thread) ------
+
+ASYNCIO = "anyio/_backends/_asyncio.py"
+
+
+class SyncWrapperUnit(PortalEnv, FunctionUnit):
+    """run_sync_from_thread.<locals>.wrapper: runs in the loop thread (call_soon_threadsafe); the calling thread blocks
+    in f.result().  The future receives exactly the function's value or exception; only a non-Exception BaseException
+    is re-raised into the loop (after being reported)."""
+
+    props = ("C14", "C15")
+    modpath = ASYNCIO
+    funcname = "AsyncIOBackend.run_sync_from_thread.<locals>.wrapper"
+    trusted = ("E9", "A-cfuture")
+
+    def props_of(self, name):
+        return {"C14", "C15"}
+
+    def __init__(self):
+        super().__init__()
+        self.globals = dict(self.portal_globals(), set_current_async_library=Builtin("set_current_async_library", lambda ip, x: None))
+
+    def run(self, ip):
+        st = ip.st
+        self.fut = new_cfuture(ip)
+        k = ip.ctx.decide(3, "function-outcome")
+        unit = self
+        self.calls = 0
+        self.value = Sym(z3.Int("function_result"), OBJ)
+        self.exc_raised = None
+
+        def func(ip, *a, **kw):
+            unit.calls += 1
+            if k == 0:
+                return unit.value
+            e = ExcVal(ValueError, ()) if k == 1 else ExcVal(KeyboardInterrupt, ())
+            unit.exc_raised = e
+            raise PyExc(e)
+
+        pre = H(st, st.snapshot())
+        node = extract.module(ASYNCIO).get(self.funcname)
+        f = FuncVal(node, Env({"f": self.fut, "func": Builtin("func", func), "args": ()}), ASYNCIO, self.funcname)
+        exc = None
+        try:
+            ip.run_body(f, ip.bind_args(f, [], {}))
+        except PyExc as e:
+            exc = e.exc
+        ip.ctx.cover(f"{self.funcname}/cover:exit[{'return' if exc is None else 'raise'}]")
+        post = H(st)
+        nm = "AsyncIOBackend.run_sync_from_thread.wrapper"
+        ft = self.fut.t
+        ip.ctx.oblige(f"{nm}/post:the_function_is_called_exactly_once", z3.BoolVal(self.calls == 1), "post")
+        if k == 0:
+            ip.ctx.oblige(f"{nm}/post:the_waiting_thread_receives_exactly_the_return_value", z3.And(z3.BoolVal(exc is None), cstate(post, ft) == CF_FINISHED, post.f("CFuture", "exc", ft) == 0, post.f("CFuture", "result", ft) == self.value.t), "post")
+        else:
+            ip.ctx.oblige(f"{nm}/post:the_waiting_thread_receives_exactly_the_exception", z3.And(cstate(post, ft) == CF_FINISHED, post.f("CFuture", "exc", ft) == ip.term(self.exc_raised, OBJ)), "post")
+            ip.ctx.oblige(f"{nm}/post:only_a_non_Exception_BaseException_is_re_raised_into_the_loop", z3.BoolVal((exc is self.exc_raised) if k == 2 else (exc is None)), "post")
+
+
+class AsyncWrapperUnit(PortalEnv, FunctionUnit):
+    """run_async_from_thread.<locals>.task_wrapper: the task the loop runs for from_thread.run().  While the coroutine
+    function runs, the task is a member of the worker thread's cancel scope (so that a cancellation of the host reaches
+    it: C03's delivery walks the member tasks) with that scope as its current scope; it is taken out again on every
+    path; the value is returned unchanged, an exception propagates unchanged, and the loop's cancellation exception
+    reaches the waiting thread as concurrent.futures.CancelledError."""
+
+    props = ("C14", "C15")
+    modpath = ASYNCIO
+    funcname = "AsyncIOBackend.run_async_from_thread.<locals>.task_wrapper"
+    trusted = ("E9", "E1")
+    contracts = {}
+
+    def props_of(self, name):
+        return {"C14", "C15"}
+
+    def __init__(self):
+        super().__init__()
+        import concurrent.futures as _cf
+
+        g = self.portal_globals()
+        g.update(
+            {
+                "_task_states": S4.TSV,
+                "TaskState": ClassVal("TaskState", info=CLASSES["TaskState"]),
+                "concurrent": NS("concurrent", {"futures": NS("futures", {"CancelledError": ClassVal("concurrent.futures.CancelledError", pycls=_cf.CancelledError)})}),
+                "str": Builtin("str", lambda ip, x: Sym(ip.st.fresh("str", z3.IntSort()), lib.STR)),
+                "__tracebackhide__": None,
+            }
+        )
+        self.globals = g
+
+    get_item = S4.ScopeUnit.get_item
+    set_item = S4.ScopeUnit.set_item
+
+    def contract_for(self, qualname, ctx):
+        return None
+
+    def after_suspending_call(self, ip, contract, a, case, exc, ret=None):
+        if contract is USER_AW:
+            self.aw = (case.name, exc, ret)
+
+    def before_suspend(self, ip, what, payload):
+        h = H(ip.st)
+        self.before = H(ip.st, ip.st.snapshot())
+        if self.scope is not None:
+            cur = ip.ctx.cur.t
+            sc = self.scope.t
+            ts = S4.tstate_of(h, cur)
+            ip.ctx.oblige("AsyncIOBackend.run_async_from_thread.task_wrapper@run/post:while_the_function_runs_the_task_is_a_member_of_the_threads_scope_and_that_is_its_current_scope", z3.And(S4.members(h, sc).has(cur), ts != 0, h.f("TaskState", "cancel_scope", ts) == sc), "post")
+
+    def after_resume(self, ip, what, payload):
+        h, b = H(ip.st), self.before
+        if self.scope is not None:
+            sc = self.scope.t
+            ip.st.assume(z3.And(h.f(S4.C, "_tasks", sc) == b.f(S4.C, "_tasks", sc), h.f(S4.C, "_tasks", sc) > 0, S4.members(h, sc).wf(), ip.st.allocated(sc)))
+
+    def run(self, ip):
+        st = ip.st
+        self.has_scope = ip.ctx.decide(2, "thread-has-a-scope") == 1
+        self.scope = Sym(z3.Int("threads_scope"), S4.CS) if self.has_scope else None
+        h = H(st)
+        if self.scope is not None:
+            sc = self.scope.t
+            st.assume(z3.And(sc > 0, st.allocated(sc), h.f(S4.C, "_tasks", sc) > 0, S4.members(h, sc).wf(), S4.TS_SINGLETON > 0))
+        self.aw = None
+        pre = H(st, st.snapshot())
+        node = extract.module(ASYNCIO).get(self.funcname)
+        func = Builtin("func", lambda ip, *a: AwaitableVal("contract", lambda: USER_AW.apply(ip, None, [], {})))
+        f = FuncVal(node, Env({"scope": self.scope, "func": func, "args": ()}), ASYNCIO, self.funcname)
+        exc, ret = None, None
+        try:
+            ret = ip.run_body(f, ip.bind_args(f, [], {}))
+        except PyExc as e:
+            exc = e.exc
+        ip.ctx.cover(f"{self.funcname}/cover:exit[{'return' if exc is None else 'raise'}]")
+        post = H(st)
+        nm = "AsyncIOBackend.run_async_from_thread.task_wrapper"
+        if self.scope is not None:
+            ip.ctx.oblige(f"{nm}/post:the_task_is_taken_out_of_the_threads_scope_on_every_path", z3.Not(S4.members(post, self.scope.t).has(ip.ctx.cur.t)), "post")
+        kind = self.aw[0] if self.aw else None
+        if kind == "returned":
+            ip.ctx.oblige(f"{nm}/post:the_value_is_returned_unchanged", z3.BoolVal(exc is None and isinstance(ret, Sym) and ret.t.eq(self.aw[2].t)), "post")
+        elif kind == "raised":
+            ip.ctx.oblige(f"{nm}/post:an_exception_propagates_unchanged", z3.BoolVal(exc is self.aw[1]), "post")
+        elif kind == "cancelled":
+            import concurrent.futures as _cf
+
+            ip.ctx.oblige(f"{nm}/post:a_cancellation_reaches_the_thread_as_concurrent_futures_CancelledError", z3.BoolVal(exc is not None and exc.pycls is _cf.CancelledError), "post")
+
+
+UNITS += [SyncWrapperUnit, AsyncWrapperUnit]
+
+
+# ---- thread-side entry points: call / start_task -------------------------------------------------------------------------
+
+
+class CallUnit(PortalUnit):
+    """BlockingPortal.call(func, *args) == start_task_soon(func, *args).result()"""
+
+    method = "call"
+
+    def make_args(self, ip):
+        self.func = Sym(z3.Int("func"), OBJ)
+        self.a0 = Sym(z3.Int("arg0"), OBJ)
+        return [self.func, self.a0], types.SimpleNamespace()
+
+    def on_exit(self, ip, pre, a, exc, ret):
+        s = a.self
+        nm = "BlockingPortal.call"
+        rs = [e for e in ip.ctx.events if e[0] == "run_sync"]
+        waited = [e for e in ip.ctx.events if e[0] == "waited_for"]
+        tid = pre.f(P, "_event_loop_thread_id", s)
+        refused = z3.Or(tid == -1, tid == z3.Int("calling_thread_id"))
+        if not rs:
+            ip.ctx.oblige(f"{nm}/post:refused_exactly_when_stopped_or_from_the_loop_thread", z3.And(z3.BoolVal(exc is not None and exc.pycls is RuntimeError), refused), "post")
+            return
+        ip.ctx.oblige(f"{nm}/post:accepted_only_while_running_and_from_a_foreign_thread", z3.Not(refused), "post")
+        _, fn, args, kw = rs[0]
+        ok = len(rs) == 1 and len(args) == 5 and args[1] is self.func and isinstance(args[2], tuple) and len(args[2]) == 1 and args[2][0] is self.a0 and isinstance(args[4], Sym)
+        ip.ctx.oblige(f"{nm}/post:one_task_is_spawned_for_the_callable_with_its_arguments", z3.BoolVal(bool(ok)), "post")
+        if ok:
+            fut = args[4].t
+            post = H(ip.st)
+            if exc is None:
+                ip.ctx.oblige(f"{nm}/post:returns_exactly_the_result_delivered_through_the_calls_own_future", z3.And(cstate(post, fut) == CF_FINISHED, post.f("CFuture", "exc", fut) == 0, ip.term(ret, OBJ) == post.f("CFuture", "result", fut)), "post")
+            else:
+                re_ = getattr(self, "result_exc", None)
+                ip.ctx.oblige(f"{nm}/post:raises_exactly_the_exception_delivered_through_the_calls_own_future_or_its_cancellation", z3.Or(z3.And(z3.BoolVal(re_ is not None and exc is re_[1]), (re_[0] == fut) if re_ is not None else z3.BoolVal(False)), z3.And(z3.BoolVal(exc.pycls is not None and exc.pycls.__name__ == "CancelledError"), c_cancelled(post, fut))), "post")
+
+
+class StartTaskUnit(PortalUnit):
+    """BlockingPortal.start_task: spawns the wrapper with a task_status keyword bound to a fresh readiness future,
+    relays the task's end to that future through `task_done`, and returns (task future, started() value)"""
+
+    method = "start_task"
+
+    def __init__(self):
+        super().__init__()
+        self.globals = dict(self.globals, _BlockingPortalTaskStatus=Builtin("_BlockingPortalTaskStatus", lambda ip, fut: ("task_status", fut)))
+
+    def make_args(self, ip):
+        self.func = Sym(z3.Int("func"), OBJ)
+        return [self.func], types.SimpleNamespace()
+
+    def make_kwargs(self, ip):
+        return {"name": None}
+
+    def on_exit(self, ip, pre, a, exc, ret):
+        s = a.self
+        nm = "BlockingPortal.start_task"
+        rs = [e for e in ip.ctx.events if e[0] == "run_sync"]
+        cbs = [e for e in ip.ctx.events if e[0] == "add_done_callback"]
+        tid = pre.f(P, "_event_loop_thread_id", s)
+        refused = z3.Or(tid == -1, tid == z3.Int("calling_thread_id"))
+        if not rs:
+            ip.ctx.oblige(f"{nm}/post:refused_exactly_when_stopped_or_from_the_loop_thread", z3.And(z3.BoolVal(exc is not None and exc.pycls is RuntimeError and not cbs), refused), "post")
+            return
+        _, fn, args, kw = rs[0]
+        ok = len(rs) == 1 and len(args) == 5 and args[1] is self.func and isinstance(args[3], dict) and set(args[3]) == {"task_status"} and isinstance(args[3]["task_status"], tuple) and isinstance(args[4], Sym)
+        ip.ctx.oblige(f"{nm}/post:one_task_is_spawned_with_a_task_status_bound_to_a_fresh_readiness_future", z3.BoolVal(bool(ok)), "post")
+        if not ok:
+            return
+        fut, tsf = args[4], args[3]["task_status"][1]
+        relay = len(cbs) == 1 and isinstance(cbs[0][2], FuncVal) and cbs[0][2].qualname.endswith("task_done")
+        ip.ctx.oblige(f"{nm}/post:the_relay_is_registered_on_the_tasks_future_before_the_task_is_spawned", z3.And(z3.BoolVal(relay), cbs[0][1] == fut.t if cbs else z3.BoolVal(False), fut.t != tsf.t), "post")
+        post = H(ip.st)
+        if exc is None:
+            good = isinstance(ret, tuple) and len(ret) == 2 and isinstance(ret[0], Sym) and ret[0].t.eq(fut.t)
+            ip.ctx.oblige(f"{nm}/post:returns_the_tasks_future_and_exactly_the_started_value", z3.And(z3.BoolVal(bool(good)), cstate(post, tsf.t) == CF_FINISHED, ip.term(ret[1], OBJ) == post.f("CFuture", "result", tsf.t) if good else z3.BoolVal(False)), "post")
+
+
+UNITS += [CallUnit, StartTaskUnit]
